@@ -8,7 +8,7 @@ KINDS = list(range(11))
 
 def plan(tier):
     q = tier == "quick"
-    T = 300 if q else 1500
+    T = 420 if q else 1500
     if q:
         # quick: every value kind for the generic member harnesses on two algorithms (dir, ECDH-ES); the other algorithms and the
         # caller-registered / crit harnesses with the scalar + list kinds only.  thorough: the full product.
